@@ -1448,7 +1448,7 @@ TABLE = [
     (r'^syn::Error::new_spanned::<', s_syn_error),
     (r'^Vec::<.*>::is_empty$', s_slice_is_empty),
     (r' as quote::__private::ext::RepAsIteratorExt<.*>>::quote_into_iter$', s_quote_into_iter),
-    (r'^<quote::__private::(ThereIsNoIteratorInRepetition|HasIterator) as std::ops::BitOr<.*>>::bitor$', s_opaque_marker),
+    (r'^<quote::__private::(ThereIsNoIteratorInRepetition|HasIterator) as std::ops::BitOr(<.*>)?>::bitor$', s_opaque_marker),
     (r'^core::fmt::rt::Argument::<.*>::new_(display|debug)::<', s_fmt_opaque),
     (r'^(core::fmt::|std::fmt::)?Arguments::<.*>::(new|new_v1|new_const|from_str)(::<.*>)?$', s_fmt_opaque),
     (r'^(alloc::fmt::|std::fmt::)?format$', s_format),
